@@ -40,6 +40,10 @@ func init() {
 		}
 		// last, so that the streams above draw the same numbers as before it existed
 		dgCanonStream(c, c.N(260, 5200))
+		// fixed witnesses of Prop_C08's layout theorems (no random draws)
+		for _, k := range dgLayoutFixedCases() {
+			dgRunCase(c, cs, k)
+		}
 	}
 }
 
@@ -1157,4 +1161,106 @@ func dgPrepStream(c *Ctx, n int) {
 		c.Count("prep:" + strings.SplitN(label, " ", 2)[0])
 		c.Eval(true, label+fmt.Sprint(comments, err != nil))
 	}
+}
+
+// ---------- fixed cases: witnesses of C08_validation_ignores_comments / ..._without_premises_refuted ----------
+
+// dgLayoutFixedCases: one document signed by the mini-IdP (exc-c14n, signature right after the first child) in four
+// layouts.  (1)/(2): the usual transform list, without and with comments everywhere a comment can go (before the Signature --
+// its child index moves --, inside SignedInfo, DigestValue, SignatureValue): both must be accepted.  (3)/(4): enveloped-signature
+// listed TWICE (digest and signature recomputed by the IdP key the way removeElementAtPath works: the second removal takes
+// the element that follows the Signature): accepted without comments; with a comment right after the Signature the second
+// removal finds a comment at the signature's index and the transform fails.
+func dgLayoutFixedCases() []*dgCase {
+	w := getWorld()
+	var out []*dgCase
+	for v := 0; v < 7; v++ {
+		twice, commented := v == 2 || v == 3, v == 1 || v == 3
+		led := newDgLedger()
+		doc := etree.NewDocument()
+		root := doc.CreateElement("m:Root")
+		root.CreateAttr("xmlns:m", "urn:example:m")
+		root.CreateAttr("ID", "_layout1")
+		root.CreateAttr("Version", "2.0")
+		if v >= 5 { // a second attribute whose LOCAL name is ID
+			root.CreateAttr("x:ID", "_other2")
+			root.CreateAttr("xmlns:x", "urn:example:x")
+		}
+		root.CreateElement("m:Issuer").SetText("idp")
+		root.CreateElement("m:Item").SetText("hello")
+		root.CreateElement("m:Item").SetText("world")
+		o := &SignOpts{Key: w.IdP1, C14N: "exc", SigAlg: dsig.RSASHA256SignatureMethod, AfterIssuer: true}
+		sig := dgSign(doc, root, o, led)
+		labels := []string{"fixed-layout", "key=" + o.Key.Name, "c14n=" + o.C14N}
+		si := dgChild(sig, "SignedInfo")
+		ref := dgChild(si, "Reference")
+		if twice {
+			tr := dgChild(ref, "Transforms")
+			x := etree.NewElement(sig.Space + ":Transform")
+			x.CreateAttr("Algorithm", string(dsig.EnvelopedSignatureAltorithmId))
+			tr.InsertChildAt(0, x)
+			if !dgRedigest(root, sig, ref, led) || !dgResign(sig, o.Key, led) {
+				continue
+			}
+			labels = append(labels, "two-enveloped-transforms,resigned")
+		}
+		expect := "ok"
+		// attribute order after signing (witnesses of C08_validation_ignores_attribute_order / ..._id_namesake_refuted):
+		// 4: unprefixed attributes moved (accepted); 5: ID before x:ID (accepted); 6: x:ID before ID: SelectAttr("ID") answers
+		// x:ID's value, no reference matches, "missing"
+		move := func(key string, to int) {
+			for i, a := range root.Attr {
+				if a.FullKey() == key {
+					at := root.Attr[i]
+					root.Attr = append(root.Attr[:i], root.Attr[i+1:]...)
+					rest := append([]etree.Attr{}, root.Attr[to:]...)
+					root.Attr = append(append(root.Attr[:to], at), rest...)
+					return
+				}
+			}
+		}
+		switch v {
+		case 4:
+			move("Version", 0)
+			move("ID", len(root.Attr)-1)
+			labels = append(labels, "unprefixed-attributes-moved")
+		case 5:
+			labels = append(labels, "id-before-prefixed-id")
+		case 6:
+			move("x:ID", 0)
+			labels = append(labels, "prefixed-id-before-id")
+			expect = "missing"
+		}
+		if commented {
+			labels = append(labels, "comments-after-signing")
+			cm := func() *etree.Comment { return etree.NewComment(" c ") }
+			// after the Signature (what the second enveloped-signature transform will find at its index)
+			root.InsertChildAt(sig.Index()+1, cm())
+			if !twice {
+				root.InsertChildAt(0, cm()) // before the Signature: its path moves
+				si.InsertChildAt(0, cm())
+				dv := dgChild(ref, "DigestValue")
+				t := dv.Text()
+				dgSetText(dv, t[:5])
+				dv.AddChild(cm())
+				dv.CreateText(t[5:])
+				sv := dgChild(sig, "SignatureValue")
+				t = sv.Text()
+				dgSetText(sv, t[:7])
+				sv.AddChild(cm())
+				sv.CreateText(t[7:])
+			} else {
+				expect = "transform-sig-not-found"
+			}
+		}
+		d2, xmlText := dgReparse(doc)
+		if d2 == nil {
+			continue
+		}
+		k := &dgCase{el: d2.Root(), store: []*KeyPair{w.IdP1}, now: baseNow, labels: labels, ledger: led, xml: xmlText}
+		k.mustOK = expect == "ok"
+		k.expectClass = expect
+		out = append(out, k)
+	}
+	return out
 }
